@@ -7,6 +7,9 @@
 //!                                                       item = g.<g> | n.<g>.<n>; custom:_ = empty
 //!   hostloop ev online|offline|other <now>
 //!   hostloop ev state <host> <0|1> <ts> <now>
+//!   hostloop wire <topic> <payload> <now>   a received publish, as raw bytes (hex): the harness hands
+//!                                    `srad_client::topic_and_payload_to_event(topic, payload)` to the loop,
+//!                                    the way every client implementation turns a publish into an Event
 //!   hostloop cancel <now>            `AppClient::cancel().await`
 //!   hostloop timeout <now>           1.1 s of virtual time pass
 //!   hostloop match <filter> <topic>  MQTT filter matching (harness matcher vs model matcher)
@@ -19,7 +22,7 @@ use crate::common::*;
 use crate::mock::{self, Decision, Kind, Obs};
 use srad_app::generic_app::ApplicationBuilder;
 use srad_app::{AppEvent, AppEventLoop, NamespaceSubConfig, SubscriptionConfig};
-use srad_client::{Event, LastWill, MessageError, StatePayload};
+use srad_client::{topic_and_payload_to_event, Event, LastWill, MessageError, StatePayload};
 use srad_types::topic::{
     node_topic_raw, state_host_topic, DeviceMessage, DeviceTopic, NodeMessage, NodeTopic, QoS,
     StateTopic,
@@ -126,6 +129,9 @@ pub enum Inp {
     Online,
     Offline,
     State { host: String, online: bool, ts: u64 },
+    /// a publish as it arrives from the broker: topic bytes + payload bytes, decoded by the library's
+    /// own `topic_and_payload_to_event` before it reaches the event loop
+    Wire { topic: Vec<u8>, payload: Vec<u8> },
     Other,
     Cancel,
     Timeout,
@@ -142,11 +148,77 @@ impl Inp {
                 (false, true) => "foreign-online",
                 (false, false) => "foreign-offline",
             },
+            Inp::Wire { topic, payload } => match wire_sem(own, topic, payload) {
+                WireSem::OwnOffline => "wire-own-offline",
+                WireSem::OwnOnline => "wire-own-online",
+                WireSem::Foreign => "wire-foreign",
+                WireSem::Unknown => "wire-other",
+            },
             Inp::Other => "other",
             Inp::Cancel => "cancel",
             Inp::Timeout => "timeout",
         }
     }
+}
+
+/// What a received publish IS, read off its bytes by the harness alone (a general JSON reader, no srad
+/// type involved): the property's sentence "an {online:false} STATE message seen for its own host id"
+/// applied to a wire message. Deliberately conservative: only the Sparkplug STATE topic
+/// `spBv1.0/STATE/<host>` with a JSON object that has a boolean `online` and an unsigned 64-bit integer
+/// `timestamp`, each member name occurring once in the text, counts as a certificate; further members
+/// (which other Sparkplug implementations add), member order and insignificant whitespace do not change
+/// what the message says. Everything else is `Unknown`: no demand is made, the model decides.
+#[derive(Clone, Copy, Debug, PartialEq)]
+pub enum WireSem {
+    OwnOffline,
+    OwnOnline,
+    Foreign,
+    Unknown,
+}
+
+fn count_sub(hay: &[u8], needle: &[u8]) -> usize {
+    if needle.is_empty() || hay.len() < needle.len() {
+        return 0;
+    }
+    hay.windows(needle.len()).filter(|w| *w == needle).count()
+}
+
+pub fn wire_sem(own: &str, topic: &[u8], payload: &[u8]) -> WireSem {
+    let Ok(t) = std::str::from_utf8(topic) else { return WireSem::Unknown };
+    let Some(h) = t.strip_prefix("spBv1.0/STATE/") else { return WireSem::Unknown };
+    if h.is_empty() || h.contains(['/', '+', '#']) {
+        return WireSem::Unknown;
+    }
+    let Ok(serde_json::Value::Object(m)) = serde_json::from_slice::<serde_json::Value>(payload) else {
+        return WireSem::Unknown;
+    };
+    let (Some(serde_json::Value::Bool(on)), Some(ts)) = (m.get("online"), m.get("timestamp")) else {
+        return WireSem::Unknown;
+    };
+    // an unsigned integer literal that fits 64 bits (not a fraction, an exponent, a sign or a string)
+    if !ts.is_u64() {
+        return WireSem::Unknown;
+    }
+    if count_sub(payload, b"\"online\"") != 1 || count_sub(payload, b"\"timestamp\"") != 1 {
+        return WireSem::Unknown; // repeated / nested member names: say nothing
+    }
+    if h != own {
+        WireSem::Foreign
+    } else if *on {
+        WireSem::OwnOnline
+    } else {
+        WireSem::OwnOffline
+    }
+}
+
+/// the discriminating trait of a certificate's text (feature string of the wire clauses)
+fn wire_shape(payload: &[u8]) -> String {
+    let n = match serde_json::from_slice::<serde_json::Value>(payload) {
+        Ok(serde_json::Value::Object(m)) => m.len(),
+        _ => 0,
+    };
+    let ws = payload.iter().any(|b| matches!(b, b' ' | b'\n' | b'\t' | b'\r'));
+    format!("{}{}", if n > 2 { "extra-members" } else { "two-members" }, if ws { "+whitespace" } else { "" })
 }
 
 #[derive(Clone, Debug, PartialEq)]
@@ -164,6 +236,7 @@ impl Step {
             Inp::State { host, online, ts } => {
                 format!("hostloop ev state {} {} {} {}", hx(host), *online as u8, ts, self.now)
             }
+            Inp::Wire { topic, payload } => format!("hostloop wire {} {} {}", hex(topic), hex(payload), self.now),
             Inp::Cancel => format!("hostloop cancel {}", self.now),
             Inp::Timeout => format!("hostloop timeout {}", self.now),
         }
@@ -368,6 +441,10 @@ pub struct StepObs {
     /// wait is still BOUNDED (all C20 asks); the step's answer differs from the model's, and the rest of
     /// the case has diverged in time
     pub late_cancelled: bool,
+    /// a `wire` step: `topic_and_payload_to_event` panicked (nothing was handed to the loop)
+    pub decode_panic: bool,
+    /// a `wire` step: what the library's decoder made of the publish (diagnostics only)
+    pub decoded: Option<String>,
 }
 
 impl StepObs {
@@ -378,7 +455,13 @@ impl StepObs {
             self.effs.iter().map(|e| e.show()).collect::<Vec<_>>().join(";")
         };
         let r = if self.rets.is_empty() { "-".to_string() } else { self.rets.join(",") };
-        format!("{} | {}{}", e, r, if self.blocked { " !blocked" } else { "" })
+        format!(
+            "{} | {}{}{}",
+            e,
+            r,
+            if self.blocked { " !blocked" } else { "" },
+            if self.decode_panic { " !panic" } else { "" }
+        )
     }
 }
 
@@ -480,6 +563,8 @@ pub fn drive(c: &Case) -> Option<Vec<StepObs>> {
             let n = hub.trace_len();
             mock::set_clocks(s.now);
             let mut blocked = false;
+            let mut decode_panic = false;
+            let mut decoded = None;
             match &s.inp {
                 Inp::Online => {
                     feeder.push(Event::Online);
@@ -496,6 +581,23 @@ pub fn drive(c: &Case) -> Option<Vec<StepObs>> {
                             StatePayload::Offline { timestamp: *ts }
                         },
                     });
+                }
+                Inp::Wire { topic, payload } => {
+                    let (t, p) = (topic.clone(), payload.clone());
+                    match catch(move || topic_and_payload_to_event(t, p)) {
+                        Ok(ev) => {
+                            decoded = Some(match &ev {
+                                Event::State { host_id, payload } => format!("State {{ {:?}, {:?} }}", host_id, payload),
+                                Event::InvalidPublish { reason, .. } => format!("InvalidPublish {{ {:?} }}", reason),
+                                Event::Node(_) => "Node".to_string(),
+                                Event::Device(_) => "Device".to_string(),
+                                Event::Online => "Online".to_string(),
+                                Event::Offline => "Offline".to_string(),
+                            });
+                            feeder.push(ev);
+                        }
+                        Err(_) => decode_panic = true,
+                    }
                 }
                 Inp::Other => {
                     feeder.push(Event::InvalidPublish {
@@ -516,6 +618,8 @@ pub fn drive(c: &Case) -> Option<Vec<StepObs>> {
             mock::settle().await;
             let mut o = collect(&hub, n);
             o.blocked = blocked;
+            o.decode_panic = decode_panic;
+            o.decoded = decoded;
             o.finished = jh.is_finished();
             if matches!(s.inp, Inp::Cancel) {
                 pending_cancels += 1;
@@ -757,6 +861,42 @@ fn oracle(out: &mut Out, c: &Case, obs: &[StepObs]) {
                     out.fail("C16:other-state-silent", &feat, format!("step {}: {}", k, o.answer()));
                 }
             }
+            Inp::Wire { topic, payload } if !before.draining => {
+                let text = || {
+                    format!(
+                        "topic {:?} payload {:?} (library decoded it as {})",
+                        String::from_utf8_lossy(topic),
+                        String::from_utf8_lossy(payload),
+                        o.decoded.as_deref().unwrap_or("<panic>")
+                    )
+                };
+                if o.decode_panic {
+                    out.fail("C16:wire-decode-no-panic", &feat, format!("step {}: {}", k, text()));
+                }
+                match wire_sem(&c.host, topic, payload) {
+                    WireSem::OwnOffline if before.connected => {
+                        // "Once its birth has gone out, an {online:false} STATE message seen for its own host
+                        // id is answered by republishing the birth with the session's timestamp" (that the
+                        // birth carries the session's timestamp is clause birth-timestamp-equals-will above)
+                        let good = o.effs.len() == 1 && is_birth(&o.effs[0]) && will == will_before;
+                        if !good {
+                            out.fail(
+                                "C16:own-offline-from-wire-answered",
+                                &format!("{}:{}", feat, wire_shape(payload)),
+                                format!("step {}: {} ; {}", k, o.answer(), text()),
+                            );
+                        }
+                    }
+                    WireSem::OwnOnline | WireSem::Foreign if !silent => {
+                        out.fail(
+                            "C16:other-state-from-wire-silent",
+                            &format!("{}:{}", feat, wire_shape(payload)),
+                            format!("step {}: {} ; {}", k, o.answer(), text()),
+                        );
+                    }
+                    _ => {}
+                }
+            }
             Inp::Cancel => {
                 let good = o.effs.len() == 2 && is_death(&o.effs[0]) && matches!(o.effs[1], E::Disc);
                 if !good {
@@ -937,7 +1077,7 @@ fn random_case(rng: &mut Rng, maxlen: u64) -> Case {
             1 => now = now.saturating_sub(rng.range(1, 5000)),
             _ => now += rng.range(1, 5000),
         }
-        let inp = match rng.below(20) {
+        let inp = match rng.below(23) {
             0..=5 => Inp::Online,
             6..=10 => Inp::Offline,
             11..=13 => Inp::State { host: host.clone(), online: false, ts: rng.below(1 << 40) },
@@ -946,13 +1086,313 @@ fn random_case(rng: &mut Rng, maxlen: u64) -> Case {
             16 => Inp::State { host: other.clone(), online: true, ts: u64::MAX },
             17 => Inp::Other,
             18 => Inp::Cancel,
-            _ => Inp::Timeout,
+            19 => Inp::Timeout,
+            _ => random_wire(rng, &host, &other),
         };
         steps.push(Step { inp, now });
     }
     let mut c = Case { mode, cfg: random_cfg(rng), host, now0, steps };
     c.normalize();
     c
+}
+
+// ---------------------------------------------------------------------------------------------
+// STATE messages from the wire
+
+fn state_topic_bytes(host: &str) -> Vec<u8> {
+    format!("spBv1.0/STATE/{}", host).into_bytes()
+}
+
+fn wire(host: &str, json: &str) -> Inp {
+    Inp::Wire { topic: state_topic_bytes(host), payload: json.as_bytes().to_vec() }
+}
+
+/// further members other implementations put into the certificate object
+const EXTRA_MEMBERS: [&str; 16] = [
+    r#""bdSeq":7"#,
+    r#""bdSeq":0"#,
+    r#""seq":255"#,
+    r#""uuid":"7d5f0c1e""#,
+    r#""version":"3.0.0""#,
+    r#""primary":true"#,
+    r#""note":null"#,
+    r#""load":0.25"#,
+    r#""offset":-3"#,
+    r#""big":1e300"#,
+    r#""tags":[]"#,
+    r#""tags":[1,"a",{"k":[null]}]"#,
+    r#""meta":{}"#,
+    r#""meta":{"vendor":"x","build":{"n":1}}"#,
+    r#""text":"a \"quoted\" \\ \u00e9 é { } [ ] , :""#,
+    "\"\":0",
+];
+
+/// JSON texts of ONE certificate {online, timestamp} as a foreign implementation may legally write it:
+/// member order, further members before / between / after, insignificant whitespace.
+fn cert_texts(online: bool, ts: u64) -> Vec<(String, String)> {
+    let on = format!(r#""online":{}"#, online);
+    let t = format!(r#""timestamp":{}"#, ts);
+    let mut v: Vec<(String, String)> = vec![];
+    v.push(("srad-order".into(), format!("{{{},{}}}", t, on)));
+    v.push(("spec-order".into(), format!("{{{},{}}}", on, t)));
+    for x in EXTRA_MEMBERS {
+        v.push((format!("extra-after {}", x), format!("{{{},{},{}}}", on, t, x)));
+    }
+    for x in [EXTRA_MEMBERS[0], EXTRA_MEMBERS[3], EXTRA_MEMBERS[6], EXTRA_MEMBERS[11], EXTRA_MEMBERS[13], EXTRA_MEMBERS[14]] {
+        v.push((format!("extra-before {}", x), format!("{{{},{},{}}}", x, on, t)));
+        v.push((format!("extra-between {}", x), format!("{{{},{},{}}}", t, x, on)));
+    }
+    v.push((
+        "extra-many".into(),
+        format!("{{{},{},{},{},{},{}}}", EXTRA_MEMBERS[0], on, EXTRA_MEMBERS[3], EXTRA_MEMBERS[13], t, EXTRA_MEMBERS[5]),
+    ));
+    v.push((
+        "extra-similar-names".into(),
+        format!(r#"{{"Online":true,"online2":true,{},"time":1,"timestamp ":2,{}}}"#, on, t),
+    ));
+    v.push(("ws-spaces".into(), format!(r#"{{ "online" : {} , "timestamp" : {} }}"#, online, ts)));
+    v.push(("ws-pretty".into(), format!("{{\n  \"online\": {},\n  \"timestamp\": {}\n}}\n", online, ts)));
+    v.push((
+        "ws-tabs-crlf".into(),
+        format!("\t{{\r\n\t\"timestamp\":\t{}\t,\r\n\t\"online\":\t{}\r\n}}\r\n", ts, online),
+    ));
+    v.push((
+        "ws-pretty-extra".into(),
+        format!("{{\n  \"online\": {},\n  \"timestamp\": {},\n  \"bdSeq\": 7\n}}", online, ts),
+    ));
+    v
+}
+
+/// texts that are NOT a plain certificate by the harness's reading (`wire_sem` = Unknown): the oracle
+/// demands nothing, implementation and model must agree on what the host does
+fn odd_texts() -> Vec<String> {
+    [
+        "",
+        "{}",
+        "[]",
+        "null",
+        "false",
+        r#"{"online":false}"#,
+        r#"{"timestamp":5}"#,
+        r#"{"online":false,"timestamp":5"#,
+        r#"{"online":false,"timestamp":5,}"#,
+        r#"{"online":false,"timestamp":5}x"#,
+        r#"{"online":false,"timestamp":5}{}"#,
+        r#"{"online":false,"timestamp":5.0}"#,
+        r#"{"online":false,"timestamp":5e0}"#,
+        r#"{"online":false,"timestamp":-5}"#,
+        r#"{"online":false,"timestamp":"5"}"#,
+        r#"{"online":false,"timestamp":18446744073709551616}"#,
+        r#"{"online":false,"timestamp":null}"#,
+        r#"{"online":0,"timestamp":5}"#,
+        r#"{"online":"false","timestamp":5}"#,
+        r#"{"online":null,"timestamp":5}"#,
+        r#"{"online":false,"online":false,"timestamp":5}"#,
+        r#"{"online":false,"timestamp":5,"timestamp":6}"#,
+        r#"{"online":false,"timestamp":5,"meta":{"online":true}}"#,
+        r#"{"\u006fnline":false,"timestamp":5}"#,
+        r#"[false,5]"#,
+        r#"[5,false]"#,
+        r#"{"online":false,"timestamp":5,"bdSeq":}"#,
+        r#"{"online":false,"timestamp":5,"bdSeq":7"#,
+        "\u{feff}{\"online\":false,\"timestamp\":5}",
+    ]
+    .iter()
+    .map(|s| s.to_string())
+    .collect()
+}
+
+fn random_ws(rng: &mut Rng) -> String {
+    if rng.chance(2, 3) {
+        return String::new();
+    }
+    (0..rng.range(1, 3)).map(|_| *rng.pick(&[' ', '\n', '\t', '\r'])).collect()
+}
+
+/// one random received STATE publish: usually a certificate with random further members, order,
+/// whitespace and timestamp on the own / another host's STATE topic, sometimes an odd text or topic
+fn random_wire(rng: &mut Rng, host: &str, other: &str) -> Inp {
+    let h = match rng.below(8) {
+        0 | 1 => other.to_string(),
+        _ => host.to_string(),
+    };
+    let mut topic = state_topic_bytes(&h);
+    match rng.below(30) {
+        0 => topic.extend_from_slice(b"/x"),
+        1 => topic = b"spBv1.0/STATE".to_vec(),
+        2 => topic = format!("STATE/{}", h).into_bytes(),
+        3 => topic = format!("spBv1.0/state/{}", h).into_bytes(),
+        _ => {}
+    }
+    if rng.chance(1, 10) {
+        let odd = odd_texts();
+        return Inp::Wire { topic, payload: rng.pick(&odd).as_bytes().to_vec() };
+    }
+    let online = rng.chance(1, 5);
+    let ts = match rng.below(6) {
+        0 => 0,
+        1 => u64::MAX,
+        2 => rng.below(10),
+        _ => rng.below(1 << 41),
+    };
+    let mut members = vec![
+        format!("\"online\"{}:{}{}", random_ws(rng), random_ws(rng), online),
+        format!("\"timestamp\"{}:{}{}", random_ws(rng), random_ws(rng), ts),
+    ];
+    if rng.chance(1, 2) {
+        members.swap(0, 1);
+    }
+    let n_extra = match rng.below(4) {
+        0 => 0,
+        1 | 2 => 1,
+        _ => rng.range(2, 4),
+    };
+    let mut used: Vec<String> = vec![];
+    for _ in 0..n_extra {
+        let x = *rng.pick(&EXTRA_MEMBERS);
+        let key = x.split(':').next().unwrap().to_string();
+        if used.contains(&key) {
+            continue; // a member name twice: not what this generator is for
+        }
+        used.push(key);
+        let at = rng.below(members.len() as u64 + 1) as usize;
+        members.insert(at, x.to_string());
+    }
+    let mut s = random_ws(rng);
+    s.push('{');
+    for (i, m) in members.iter().enumerate() {
+        if i > 0 {
+            s.push(',');
+        }
+        s.push_str(&random_ws(rng));
+        s.push_str(m);
+        s.push_str(&random_ws(rng));
+    }
+    s.push('}');
+    s.push_str(&random_ws(rng));
+    let mut payload = s.into_bytes();
+    if rng.chance(1, 25) {
+        let cut = rng.below(payload.len() as u64) as usize;
+        payload.truncate(cut);
+    }
+    Inp::Wire { topic, payload }
+}
+
+/// (f) scripted: every certificate text at every point of the session life cycle where the property
+/// speaks about an own {online:false} message
+fn wire_scenarios(out: &mut Out, thorough: bool) {
+    let cfgs = fixed_cfgs();
+    let st = |inp: Inp, now: u64| Step { inp, now };
+    let own_off = cert_texts(false, 2);
+    let run = |out: &mut Out, mode: Mode, cfg: &Cfg, host: &str, steps: Vec<Step>, kind: &str| {
+        let mut c = Case { mode, cfg: cfg.clone(), host: host.into(), now0: 1000, steps };
+        c.normalize();
+        run_case(out, &c, kind);
+    };
+    for (ci, cfg) in cfgs.iter().enumerate() {
+        let modes: &[Mode] = if ci == 0 || thorough { &[Mode::Loop, Mode::App, Mode::LoopReject] } else { &[Mode::Loop] };
+        for &mode in modes {
+            for (_, j) in &own_off {
+                // in the first session: answered with the session's will timestamp, also the second time,
+                // after a plain certificate and after a hand-built event
+                run(
+                    out,
+                    mode,
+                    cfg,
+                    HOST,
+                    vec![
+                        st(Inp::Online, 1010),
+                        st(wire(HOST, j), 1020),
+                        st(wire(HOST, r#"{"online":false,"timestamp":1}"#), 1030),
+                        st(wire(HOST, j), 1040),
+                        st(Inp::State { host: HOST.into(), online: false, ts: 3 }, 1050),
+                        st(wire(HOST, j), 1060),
+                    ],
+                    "wire:first-session",
+                );
+                // after a reconnect: answered with the NEW session's timestamp; not while offline, not
+                // before the first session
+                run(
+                    out,
+                    mode,
+                    cfg,
+                    HOST,
+                    vec![
+                        st(wire(HOST, j), 1005),
+                        st(Inp::Online, 1010),
+                        st(Inp::Offline, 1500),
+                        st(wire(HOST, j), 1600),
+                        st(Inp::Online, 2000),
+                        st(wire(HOST, j), 2100),
+                        st(Inp::Online, 2200),
+                        st(wire(HOST, j), 2300),
+                    ],
+                    "wire:reconnect",
+                );
+                // during the shutdown wait nothing is answered; the cancel still completes
+                run(
+                    out,
+                    mode,
+                    cfg,
+                    HOST,
+                    vec![
+                        st(Inp::Online, 1010),
+                        st(wire(HOST, j), 1020),
+                        st(Inp::Cancel, 1030),
+                        st(wire(HOST, j), 1040),
+                        st(Inp::Offline, 1050),
+                    ],
+                    "wire:cancel",
+                );
+            }
+        }
+        // the same texts saying something else: own {online:true}, another host's certificates, odd texts
+        // and odd topics - nothing is published
+        let mut steps = vec![st(Inp::Online, 1010)];
+        let mut now = 1010;
+        let mut push = |steps: &mut Vec<Step>, i: Inp| {
+            now += 7;
+            steps.push(Step { inp: i, now });
+        };
+        for (_, j) in cert_texts(true, 9) {
+            push(&mut steps, wire(HOST, &j));
+        }
+        for (_, j) in &own_off {
+            push(&mut steps, wire(FOREIGN, j));
+            push(&mut steps, wire("H1x", j));
+            push(&mut steps, wire("H", j));
+        }
+        for j in odd_texts() {
+            push(&mut steps, wire(HOST, &j));
+            push(&mut steps, wire(FOREIGN, &j));
+        }
+        for t in ["spBv1.0/STATE", "spBv1.0/STATE/", "spBv1.0/STATE/H1/x", "spBv1.0/STATE/H1/", "STATE/H1", "spBv1.0/state/H1", "", "/", "spBv1.0"] {
+            for (_, j) in own_off.iter().take(3) {
+                push(&mut steps, Inp::Wire { topic: t.as_bytes().to_vec(), payload: j.as_bytes().to_vec() });
+            }
+        }
+        // and the session is still answered afterwards
+        push(&mut steps, wire(HOST, &own_off[2].1));
+        run(out, Mode::Loop, cfg, HOST, steps, "wire:not-an-own-death");
+    }
+    // timestamps of the received certificate: the answer never depends on it
+    for ts in [0u64, 1, 999, 1010, 1011, u64::MAX - 1, u64::MAX] {
+        for (_, j) in cert_texts(false, ts).into_iter().take(6) {
+            run(
+                out,
+                Mode::Loop,
+                &cfgs[0],
+                "host é",
+                vec![st(Inp::Online, 1010), st(wire("host é", &j), 1020)],
+                "wire:timestamps",
+            );
+        }
+    }
+    out.exhaustive.push(format!(
+        "wire: {} texts of one own {{online:false}} certificate (member order, 16 kinds of further members after / before / between, whitespace) x {{first session three times, after a reconnect, before the first session, while offline, during the shutdown wait}} x 3 configurations (loop; configuration 1 also app and rejecting client); the same texts as own online / foreign certificates, {} odd texts and 9 odd topics",
+        own_off.len(),
+        odd_texts().len()
+    ));
 }
 
 fn aux_line(out: &mut Out, op: &str) {
@@ -1056,7 +1496,7 @@ fn aux_cases(out: &mut Out, rng: &mut Rng, thorough: bool) {
     }
 }
 
-pub const RULE: &str = "cases = (a) every event sequence of length <=L over {Online, Offline, own STATE online, own STATE offline, foreign STATE offline} optionally followed by Cancel (then closed once by a delivered Offline and once by the 1 s timeout), x {AllGroups, SingleGroup, Custom[group, group+node]}, through AppEventLoop::new + poll; (b) the same through ApplicationBuilder/Application::run for length <=La; (c) every sequence of length <=Lx over the 9-symbol alphabet that adds foreign STATE online, a non-STATE event, Cancel anywhere and the 1 s timeout (a third outstanding cancel is skipped); (d) random sequences up to 60 steps with random configurations (odd group/node ids incl. '/', '+', '#', empty, non-ASCII), odd and invalid host ids (constructor panic), non-monotone clock, rejecting client, all three drive modes; (e) filter matcher / name validation / topic strings differentially. The mock clock is set before every step. A case is non-trivial if at least one session was opened (a subscribe was observed); distinct = distinct op-line sequences (hashed).";
+pub const RULE: &str = "cases = (a) every event sequence of length <=L over {Online, Offline, own STATE online, own STATE offline, foreign STATE offline} optionally followed by Cancel (then closed once by a delivered Offline and once by the 1 s timeout), x {AllGroups, SingleGroup, Custom[group, group+node]}, through AppEventLoop::new + poll; (b) the same through ApplicationBuilder/Application::run for length <=La; (c) every sequence of length <=Lx over the 9-symbol alphabet that adds foreign STATE online, a non-STATE event, Cancel anywhere and the 1 s timeout (a third outstanding cancel is skipped); (d) random sequences up to 60 steps with random configurations (odd group/node ids incl. '/', '+', '#', empty, non-ASCII), odd and invalid host ids (constructor panic), non-monotone clock, rejecting client, all three drive modes; (e) filter matcher / name validation / topic strings differentially; (f) STATE messages FROM THE WIRE: topic bytes + JSON text handed to srad_client::topic_and_payload_to_event and the resulting Event to the loop (`hostloop wire`): scripted - every text of one own {online:false} certificate (member order, further members as other Sparkplug implementations add them before/between/after, insignificant whitespace) in the first session (three times, mixed with plain and hand-built ones), after a reconnect, before the first session, while offline and during the shutdown wait, the same texts as own {online:true} / other hosts' certificates, odd texts and odd topics - and about 1 in 8 steps of the random sequences (random members, order, whitespace, timestamps 0..u64::MAX, other host ids, truncation). The mock clock is set before every step. A case is non-trivial if at least one session was opened (a subscribe was observed); distinct = distinct op-line sequences (hashed).";
 
 pub fn run(args: &Args, out: &mut Out) -> &'static str {
     let mut rng = Rng::new(args.seed);
@@ -1104,6 +1544,8 @@ pub fn run(args: &Args, out: &mut Out) -> &'static str {
         }
     }
     out.exhaustive.push(format!("mode loop: all sequences of length 0..={} over 9 inputs (cancel anywhere, timeout) x 3 configurations", lx));
+    // (f) (before the random cases: the scripted scenarios give the shortest failing inputs)
+    wire_scenarios(out, args.thorough());
     // (d)
     for _ in 0..nrand {
         let c = random_case(&mut rng, 60);
@@ -1147,6 +1589,10 @@ pub fn replay(_desc: &str, lines: &[String], out: &mut Out) {
             ["hostloop", "ev", "other", now] => cur.as_mut().unwrap().steps.push(Step { inp: Inp::Other, now: now.parse().unwrap() }),
             ["hostloop", "ev", "state", h, on, ts, now] => cur.as_mut().unwrap().steps.push(Step {
                 inp: Inp::State { host: unhx(h), online: *on == "1", ts: ts.parse().unwrap() },
+                now: now.parse().unwrap(),
+            }),
+            ["hostloop", "wire", t, p, now] => cur.as_mut().unwrap().steps.push(Step {
+                inp: Inp::Wire { topic: unhex(t), payload: unhex(p) },
                 now: now.parse().unwrap(),
             }),
             ["hostloop", "cancel", now] => cur.as_mut().unwrap().steps.push(Step { inp: Inp::Cancel, now: now.parse().unwrap() }),
